@@ -1,27 +1,27 @@
-\* documented counterexample: options rebuilt without Range (go-zero before the C08 fix)
+\* Layer I => Layer P on the parameter multimaps: keys without a value, keys with two values, list fields of form and header
 SPECIFICATION ISpec
 CONSTANTS
-  Sources = {"json"}
+  Sources = {"form", "formpost", "header"}
   Wraps = {"flat"}
-  Kinds = {"int"}
+  Kinds = {"int", "string", "bool", "strs", "ints"}
   AOpts = {"none", "plain", "dep", "notdep"}
-  Defs = {"none", "in", "out"}
-  Rngs = {"none", "cc", "oc", "frac"}
+  Defs = {"none", "in"}
+  Rngs = {"none", "cc"}
   Opts = {"none", "bar"}
-  FSs = {FALSE, TRUE}
+  FSs = {FALSE}
   Ptrs = {FALSE}
-  BIds = {"nob", "opt", "mutual"}
-  XKs = {"", "b"}
+  BIds = {"nob"}
+  XKs = {"", "b", "zz"}
   Rich = FALSE
   Edges = FALSE
   KSps = {"lower"}
   MKs = {"k"}
   Unit = 2
-  Multi = FALSE
-  XVs = {"one"}
+  Multi = TRUE
+  XVs = {"one", "none", "two"}
   Depth = 1
   Emit = FALSE
-  DropOnRebuild = TRUE
+  DropOnRebuild = FALSE
   CanonBang = FALSE
   WideParse = FALSE
   MapAsStruct = FALSE
